@@ -20,7 +20,7 @@ def prop(pid, **kw):
 
 
 prop("C09",
-     level_text="The real bodies of RectangularConfidenceRegion.is_dominated (with PolyhedralConeOrder.dominates, OrderingCone.is_inside, hyperrectangle_get_vertices inlined) are symbolically executed and proved equal to the vertex-pair formula for all real inputs; the box-extreme-point lemma lifts it to all points of the boxes. Slack forms and the ValueError condition are covered.",
+     level_text="The real bodies of RectangularConfidenceRegion.is_dominated (with PolyhedralConeOrder.dominates, OrderingCone.is_inside, hyperrectangle_get_vertices inlined) are symbolically executed and proved equal to the vertex-pair formula for all real inputs; the box-extreme-point lemma lifts it to all points of the boxes. Slack forms and the ValueError condition are covered. HISTORIES: Rect.history / Ell.history tasks build the regions with the real constructors, use the predicate, change the region with the real update / intersect and use it again: the second result is the specification's for the bounds / ellipsoid displayed now (a stale memo fails, a correctly invalidated one verifies); a bounded twin stand-in (fresh regions) is their fall-back.",
      mode="unrolled: m in {1,2,3} (thorough: 4), K in {1..m+1}; all real-valued inputs unbounded",
      assumptions=[A_SOLVE],
      trusted_base=["z3 5.1.0", "cvc5 1.0.3", "cvxpy solver contract (ellipsoids)"],
@@ -28,7 +28,7 @@ prop("C09",
                   "dimensions m > 4"])
 
 prop("C10",
-     level_text="RectangularConfidenceRegion.is_covered, EllipsoidalConfidenceRegion.is_covered and hyperrectangle_get_region_matrix are executed symbolically; the cvxpy program they build is proved pointwise equal to the specification's constraint set, and the returned boolean is proved to be the solver's feasibility verdict of that program on every path (both arms of the SolverError fallback).",
+     level_text="RectangularConfidenceRegion.is_covered, EllipsoidalConfidenceRegion.is_covered and hyperrectangle_get_region_matrix are executed symbolically; the cvxpy program they build is proved pointwise equal to the specification's constraint set, and the returned boolean is proved to be the solver's feasibility verdict of that program on every path (both arms of the SolverError fallback). HISTORIES: as for C09 (Rect.history / Ell.history: construct, use, update or intersect, use) -- the second verdict refers to the regions displayed now.",
      mode="unrolled: rectangles m in {1,2,3} (thorough 4), K in {1..m+1}; ellipsoids m in {2,3}; all real-valued inputs unbounded",
      assumptions=[A_SOLVE],
      trusted_base=["z3 5.1.0", "cvc5 1.0.3", "cvxpy solver contract: status/feasibility exact"],
@@ -53,17 +53,17 @@ _SET_TB = ["z3 5.1.0", "cvc5 1.0.3",
            "ghost iteration order of a set: stable while the set object is not mutated (CPython), unconstrained afterwards"]
 
 prop("C02",
-     level_text="The real discarding() of all seven elimination algorithms and the three compute_pessimistic_set() are symbolically executed over arbitrary finite sets and arbitrary predicate answers and proved to perform EXACTLY the certified elimination (set equality: only-if and if, same round), with the slack the property names, the witness set it names, and P/U untouched. Auer: each design's own displayed half-width, under the alignment precondition established in run_one_step (C06).",
+     level_text="The real discarding() of all seven elimination algorithms and the three compute_pessimistic_set() are symbolically executed over arbitrary finite sets and arbitrary predicate answers and proved to perform EXACTLY the certified elimination (set equality: only-if and if, same round), with the slack the property names, the witness set it names, and P/U untouched. Auer: each design's own displayed half-width, under the alignment precondition established in run_one_step (C06). HISTORIES (bounded): a native stand-in drives discarding() over multi-round histories on a long-lived object against a twin holding only the declared state (hidden state such as a memoised pessimistic set is invisible to the single-call contracts).",
      mode=_SET, trusted_base=_SET_TB,
      not_decided=["geometric meaning of the predicates (that is C09/C10/C11)", "Auer with m > 3 objectives"])
 
 prop("C03",
-     level_text="The real pareto_updating / epsiloncovering / useful_updating of all seven algorithms are proved to perform exactly the specified promotion (S' and P' as set equalities, P monotone, S and P disjoint, VOGP_AD's depth gate and latch), U exactly the members of P that can still cover a candidate; Auer's two-stage hold-back with each design's own width under the alignment precondition.",
+     level_text="The real pareto_updating / epsiloncovering / useful_updating of all seven algorithms are proved to perform exactly the specified promotion (S' and P' as set equalities, P monotone, S and P disjoint, VOGP_AD's depth gate and latch), U exactly the members of P that can still cover a candidate; Auer's two-stage hold-back with each design's own width under the alignment precondition. HISTORIES (bounded): the same twin stand-in for pareto_updating / epsiloncovering / useful_updating.",
      mode=_SET, trusted_base=_SET_TB,
      not_decided=["geometric meaning of the predicates (C10)", "Auer with m > 3 objectives"])
 
 prop("C06",
-     level_text="run_one_step of the elimination algorithms is executed symbolically with the phases called by contract (the transitions proved for their real bodies); per step: idempotence after completion, S shrinks, P grows, S/P disjoint, U inside P, round+1, completion flag, phase order, samples only while candidates remain; evaluating() accounting and the discrete optimisers' exception-freedom are separate obligations.",
+     level_text="run_one_step of the elimination algorithms is executed symbolically with the phases called by contract (the transitions proved for their real bodies); per step: idempotence after completion, S shrinks, P grows, S/P disjoint, U inside P, round+1, completion flag, phase order, samples only while candidates remain; evaluating() accounting and the discrete optimisers' exception-freedom are separate obligations. WHOLE ROUNDS (bounded): a native stand-in builds the algorithms with their real constructors and checks every problem.evaluate call of real run_one_step() rounds against the state at that moment (active designs only, accounting, idle after completion).",
      mode=_SET, trusted_base=_SET_TB,
      not_decided=["exception-freedom inside cvxpy / gpytorch / botorch calls", "termination"])
 
@@ -90,7 +90,7 @@ prop("C20",
                   "bundled data files' contents and row counts (declared cardinalities)"])
 
 prop("C08",
-     level_text="NaiveElimination.__init__ is executed symbolically and its default L proved equal to the property's formula with sigma = sqrt(noise_var) for all noise_var, epsilon, delta, beta; run_one_step's storage of one observation per design per round, the counters, the completion flag and the no-op after completion; P as get_pareto_set of the per-design means of all stored observations (get_pareto_set's exactness is C13).",
+     level_text="NaiveElimination.__init__ is executed symbolically and its default L proved equal to the property's formula with sigma = sqrt(noise_var) for all noise_var, epsilon, delta, beta; run_one_step's storage of one observation per design per round, the counters, the completion flag and the no-op after completion; P as get_pareto_set of the per-design means of all stored observations (get_pareto_set's exactness is C13). The constructor task also proves that the sampling problem is built on the same dataset with noise covariance noise_var * I, i.e. the noise L is sized for is the noise that is drawn.",
      mode="K in {2,3,5}, m in {2,3} concrete; all real parameters symbolic",
      trusted_base=["z3 5.1.0", "numpy.ceil / numpy.log / numpy.sqrt contracts",
                    "ASSUMED: that the formula's L yields the (eps, delta)-PAC guarantee (Ararat & Tekin 2023) -- probability is not within reach of contracts"],
@@ -107,7 +107,7 @@ prop("C04",
 
 prop("C13",
      level_text="get_pareto_set and get_pareto_set_naive are executed symbolically (mask-and-compact loop with the executor forking on every symbolic mask entry) with `dominates` called by contract as an ARBITRARY reflexive transitive relation on the input vectors: valid/distinct/increasing indices, nothing returned is strictly dominated, every input is weakly dominated by a returned vector, equal values once (fast) / all kept (naive).",
-     mode="number of vectors N enumerated (quick 1..4, thorough 5); order abstract (all cones, all m, all K); vector values symbolic",
+     mode="number of vectors N enumerated (1..5); order abstract (all cones, all m, all K); vector values symbolic",
      trusted_base=["z3 5.1.0", "numpy.allclose definition", "numpy boolean-mask selection keeps the selected rows in order"],
      not_decided=["N beyond the enumerated sizes (the loop is not cut by an invariant; termination not proved)"])
 
@@ -126,14 +126,14 @@ prop("C18",
                   "refine_design called directly on a node at max depth (outside the precondition the library's only call site establishes)"])
 
 prop("C11",
-     level_text="line_seg_pt_intersect_at_dim, is_pt_in_extended_polytope and RectangularConfidenceRegion.check_dominates are executed symbolically (state merging keeps the path count linear): a True answer implies every vertex of the first rectangle dominates some point of the second (soundness, any cone), and for 2x2 non-singular cones the converse holds in exact real arithmetic (completeness); the convex lift from vertices to all points is a lemma.",
+     level_text="line_seg_pt_intersect_at_dim, is_pt_in_extended_polytope and RectangularConfidenceRegion.check_dominates are executed symbolically (state merging keeps the path count linear): a True answer implies every vertex of the first rectangle dominates some point of the second (soundness, any cone), and for 2x2 non-singular cones the converse holds in exact real arithmetic (completeness); the convex lift from vertices to all points is a lemma. HISTORIES: Rect.history[check_dominates]: construct, use, change the polytope's rectangle with the real update / intersect, use -- the second answer is the exact test over the bounds displayed now.",
      mode="unrolled: m = 2 (K = 2 quick, K = 3 thorough), polytopes of 2-4 vertices; all coordinates symbolic",
      trusted_base=["z3 5.1.0", "cvc5 1.0.3", "state merging / guarded arrays of the PYVC engine"],
      not_decided=["behaviour within rounding distance of the boundary ('non-negligible margin')", "m = 3 soundness (thorough tier only, may be left open by the solvers)",
                   "division by zero inside line_seg_pt_intersect_at_dim is an unspecified real (IEEE gives nan/inf, for which all comparisons are False)"])
 
 prop("C07",
-     level_text="optimize_acqf_discrete is executed symbolically for enumerated candidate counts / batch sizes with a row-wise acquisition by contract (arbitrary value tables incl. ties): distinct rows, each the first maximiser among the remaining, non-increasing, values returned with their rows; optimize_decoupled_acqf_discrete returns the q largest cells of the (objective x design) table, sorted, as distinct pairs, with the acquisition's evaluation index restored; the acquisition rules (total variance, cost-weighted single-objective variance, region diagonal via locate_points) against their definitions; evaluating() data flow (rows evaluated = rows of the active set in the order handed to add_sample, counters) at set level.",
+     level_text="optimize_acqf_discrete is executed symbolically for enumerated candidate counts / batch sizes with a row-wise acquisition by contract (arbitrary value tables incl. ties): distinct rows, each the first maximiser among the remaining, non-increasing, values returned with their rows; optimize_decoupled_acqf_discrete returns the q largest cells of the (objective x design) table, sorted, as distinct pairs, with the acquisition's evaluation index restored; the acquisition rules (total variance, cost-weighted single-objective variance, region diagonal via locate_points) against their definitions; evaluating() data flow (rows evaluated = rows of the active set in the order handed to add_sample, counters) at set level. WHOLE ROUNDS (bounded): the stand-in described under C06 (every evaluated design is active at the time of the call, no repeats, batch size).",
      mode="unrolled: up to 4 candidates, batch up to 3; acquisition values symbolic; evaluating(): set-level",
      trusted_base=["z3 5.1.0", "numpy.argmax returns the first maximiser", "interface contract Model.predict"],
      not_decided=["ThompsonEntropyDecoupledAcquisition (random, depends on the whole candidate array): DecoupledGP's 'maximiser' is relative to the values that call returned",
